@@ -21,7 +21,7 @@ ASSUMPTIONS = ["the inner width is derived from the observed frame (line width m
                "structural minimum as in C01; below it nothing is asserted",
                "ProgressBar fills its width exactly only when a colour system is on and no_color is off (documented by its code path)"]
 REQUIRED = ["mon.casts", "mon.panel", "mon.padding", "mon.align", "mon.constrain_styled", "mon.rule", "mon.bar", "mon.pbar",
-            "mon.columns", "mon.tree"]
+            "mon.columns", "mon.tree", "mon.rule_filled"]
 MIN_NONTRIVIAL = {"quick": 3000, "thorough": 150000}
 
 
